@@ -191,19 +191,44 @@ class Sched:
         return st
 
 
-DT_RE = re.compile(rb"<DTPROFUP>(\d{8})")
+DT_RE = re.compile(rb"<DTPROFUP>(\d{8})(\d{6})?(?:\.(\d{3}))?(?:\[([+-]?\d{1,2})(?:\.(\d{2}))?(?::[^\]]*)?\])?")
 
 
 def asked_dt(body):
+    """the profile date a request names, as the index k of the profile dated 2020-01-k 00:00:00 UTC (0 = the epoch of
+    "no profile held", -1 = anything else): the INSTANT counts, whatever zone it is written in"""
+    import datetime
     m = DT_RE.search(body)
     if not m:
         return -1
-    d = m.group(1).decode()
-    if d.startswith("1990"):
+    d, t, ms, oh, om = (x.decode() if x else None for x in m.groups())
+    t = t or "000000"
+    try:
+        local = datetime.datetime(int(d[:4]), int(d[4:6]), int(d[6:8]), int(t[:2]), int(t[2:4]), int(t[4:6]), int(ms or 0) * 1000)
+    except ValueError:
+        return -1
+    off = 0
+    if oh is not None:
+        sign = -1 if oh.startswith("-") else 1
+        off = sign * (abs(int(oh)) * 60 + int(om or 0))
+    utc = local - datetime.timedelta(minutes=off)
+    if utc.year == 1990:
         return 0
-    if d.startswith("202001"):
-        return int(d[6:8])
+    if (utc.year, utc.month) == (2020, 1) and (utc.hour, utc.minute, utc.second, utc.microsecond) == (0, 0, 0, 0):
+        return utc.day
     return -1
+
+
+# the zone a server writes its profile date in (the instant is 2020-01-k 00:00:00 UTC in every case)
+ZONES = {"s1": (540, "JST"), "s2": (-300, "EST"), "s3": (330, "IST"), "s4": (0, "UTC"), "s5": (-210, "NST")}
+
+
+def dtprofup_text(name, k):
+    import datetime
+    off, zn = ZONES.get(name, (0, "UTC"))
+    local = datetime.datetime(2020, 1, k) + datetime.timedelta(minutes=off)
+    a = abs(off)
+    return "%s.000[%s%d%s:%s]" % (local.strftime("%Y%m%d%H%M%S"), "-" if off < 0 else "+", a // 60, (".%02d" % (a % 60)) if a % 60 else "", zn)
 
 
 class Server:
@@ -218,7 +243,8 @@ class Server:
         self.sent = {}
 
     def profile_bytes(self, dt):
-        b = self.os.profile(self.mins, self.url, dtprofup="202001%02d000000.000[+0:UTC]" % dt).encode()
+        # (later profiles are SHORTER than earlier ones: what an interrupted write left behind is longer than the next file)
+        b = self.os.profile(self.mins, self.url, dtprofup=dtprofup_text(self.name, dt), finame="F" * max(1, 32 - 2 * min(dt, 14))).encode()
         self.sent[b] = dt
         return b
 
@@ -238,7 +264,7 @@ class Server:
             # a well-formed answer with status 0 and a newer DTPROFUP whose PROFRS is invalid elsewhere
             # (required COUNTRY missing / over-long STATE / CITY and STATE out of order)
             self.ninvalid = getattr(self, "ninvalid", 0) + 1
-            good = self.os.profile(self.mins, self.url, dtprofup="202001%02d000000.000[+0:UTC]" % min(self.dt + 1, 28))
+            good = self.os.profile(self.mins, self.url, dtprofup=dtprofup_text(self.name, min(self.dt + 1, 28)))
             how = self.ninvalid % 3
             if how == 0:
                 bad = re.sub(r"<COUNTRY>[^<]*</COUNTRY>", "", good, count=1)
